@@ -20,7 +20,7 @@ def setup_worker(k):
     if not os.path.isdir(v):
         sh(["git", "-C", VERIF, "worktree", "add", "--detach", v, head])
     else:
-        sh(["git", "-C", v, "checkout", "-q", "--detach", head])
+        sh(["git", "-C", v, "checkout", "-q", "-f", "--detach", head])
     if not os.path.isdir(r):
         sh(["git", "-C", "/repo", "worktree", "add", "--detach", r, rhead])
     else:
